@@ -231,6 +231,11 @@ func (g *gen) history(maxLen int, concurrent bool) History {
 			out = append(out, out[g.rng.Intn(len(out)-1)])
 		case p == 11:
 			out = append(out, Op{Op: "Missing", H: 1, R: 0, S: sINIT}, Op{Op: "Voted", H: 1, R: 0, S: sINIT, Nodes: g.names})
+		case p == 12 && o.Op == "Vote":
+			// a really signed ballot of a node that is not in the suffrage
+			x := o
+			x.B.Node = "x9"
+			out = append(out, x)
 		}
 	}
 
